@@ -54,6 +54,9 @@ def print_value(e, t, tmp):
 STRUCTS = {
     "Paar": dict(n="Paar", fields=[dict(n="zahl", t=TZ, **{"def": lit(Z(7))}), dict(n="wort", t=TT, **{"def": lit(T("w"))})]),
     "Kiste": dict(n="Kiste", fields=[dict(n="inhalt", t=TL(TZ), **{"def": NONE}), dict(n="paar", t=TS("Paar"), **{"def": NONE}), dict(n="flag", t=TW, **{"def": lit(W(True))})]),
+    # layouts without a pointer-sized field: small fields before / around an 8-byte field, and small fields only
+    "Misch": dict(n="Misch", fields=[dict(n="zeichen", t=TC, **{"def": lit(C("m"))}), dict(n="wert", t=TZ, **{"def": lit(Z(1))}), dict(n="aktiv", t=TW, **{"def": lit(W(True))})]),
+    "Winzig": dict(n="Winzig", fields=[dict(n="aktiv", t=TW, **{"def": lit(W(False))}), dict(n="zeichen", t=TC, **{"def": lit(C("w"))})]),
 }
 
 
@@ -490,6 +493,28 @@ def stmt_cases(tier, rng):
 
     def add(key, setup, e, t):
         cases.append(Case(key, e, t, setup))
+    # Kombinationen whose layout has no pointer-sized field, as list elements: built element by element, filled, indexed, copied
+    for sn, mk in (("Misch", lambda i: new("Misch", zeichen=lit(C("abcdefghij"[i % 10])), wert=zl(1000 + i), aktiv=lit(W(i % 2 == 0)))),
+                   ("Winzig", lambda i: new("Winzig", aktiv=lit(W(i % 3 == 0)), zeichen=lit(C("klmnopqrst"[i % 10]))))):
+        ts = TS(sn)
+        for n in (1, 3, 40):
+            build = [var("ly", TL(ts), {"k": "list", "et": ts, "vals": []}, False),
+                     {"k": "for", "v": "i", "t": TZ, "from": zl(1), "to": zl(n), "step": NONE, "body": [setv(lvid("ly"), bin_("cat", ident("ly"), (
+                         new("Misch", zeichen=lit(C("q")), wert=bin_("plus", zl(1000), ident("i")), aktiv=bin_("eq", bin_("mod", ident("i"), zl(2)), zl(0))) if sn == "Misch" else
+                         new("Winzig", aktiv=bin_("eq", bin_("mod", ident("i"), zl(3)), zl(0)), zeichen=lit(C("r"))))))]}]
+            summ = acc_init() + [{"k": "foreach", "v": "e", "t": ts, "idx": "", "in": ident("ly"), "body": (
+                [acc_add(as_text({"k": "fld", "f": "wert", "e": ident("e")}))] if sn == "Misch" else []) + [acc_add(as_text({"k": "fld", "f": "zeichen", "e": ident("e")})), acc_add(as_text({"k": "fld", "f": "aktiv", "e": ident("e")}))]}]
+            add("layout:%s:build:%d" % (sn, n), build + summ, ident("acc"), TT)
+        add("layout:%s:literal" % sn, [var("ly", TL(ts), {"k": "list", "et": ts, "vals": [mk(1), mk(2), mk(3)]}, False)], ident("ly"), TL(ts))
+        add("layout:%s:fill" % sn, [{"k": "var", "n": "ly", "t": TL(ts), "g": False, "e": {"k": "fill", "n": zl(5), "v": mk(4)}}], ident("ly"), TL(ts))
+        add("layout:%s:index-assign" % sn, [var("ly", TL(ts), {"k": "list", "et": ts, "vals": [mk(1), mk(2), mk(3)]}, False), setv(idx_lv(lvid("ly"), zl(2)), mk(7)),
+                                             setv(fld_lv("zeichen", idx_lv(lvid("ly"), zl(3))), lit(C("Z")))], ident("ly"), TL(ts))
+        add("layout:%s:copy" % sn, [var("ly", TL(ts), {"k": "list", "et": ts, "vals": [mk(1), mk(2)]}, False), var("lz", TL(ts), ident("ly"), False),
+                                     setv(fld_lv("zeichen", idx_lv(lvid("lz"), zl(1))), lit(C("Y")))], *pair2(ident("ly"), TL(ts), ident("lz"), TL(ts)))
+        add("layout:%s:concat-lists" % sn, [var("ly", TL(ts), {"k": "list", "et": ts, "vals": [mk(1), mk(2)]}, False), var("lz", TL(ts), bin_("cat", ident("ly"), ident("ly")), False)], ident("lz"), TL(ts))
+        add("layout:%s:slice" % sn, [var("ly", TL(ts), {"k": "list", "et": ts, "vals": [mk(1), mk(2), mk(3), mk(4)]}, False)], ter("slice", ident("ly"), zl(2), zl(3)), TL(ts))
+        add("layout:%s:equal" % sn, [var("ly", TL(ts), {"k": "list", "et": ts, "vals": [mk(1), mk(2)]}, False), var("lz", TL(ts), {"k": "list", "et": ts, "vals": [mk(1), mk(2)]}, False)], bin_("eq", ident("ly"), ident("lz")), TW)
+        add("layout:%s:variable" % sn, [var("v", TV, cast(TV, mk(5)), False)], cast(ts, ident("v")), ts)
     R = range(-2, 4)
     # counting loops: bounds and steps (inclusive bounds, direction = sign of the step)
     for a, b in itertools.product(R, R):
@@ -684,6 +709,34 @@ def copy_cases(tier, rng):
     add("copy:concat-list", [var("a", TL(TZ), LZ, False), var("b", TL(TZ), bin_("cat", ident("a"), ident("a")), False), setv(idx_lv(lvid("a"), zl(1)), zl(9))], *pair_expr("a", "b", TL(TZ)))
     add("copy:list-element", [var("a", TT, TX, False), var("l", TL(TT), {"k": "list", "et": TT, "vals": [ident("a"), ident("a")]}, False), setv(idx_lv(lvid("a"), zl(1)), lit(C("O"))), setv(idx_lv(idx_lv(lvid("l"), zl(1)), zl(2)), lit(C("L")))], *pair2(ident("a"), TT, ident("l"), TL(TT)))
     add("copy:field-init", [var("a", TT, TX, False), var("p", TS("Paar"), new("Paar", zahl=zl(1), wort=ident("a")), False), setv(idx_lv(lvid("a"), zl(1)), lit(C("O")))], *pair2(ident("a"), TT, ident("p"), TS("Paar")))
+    # frame: an assignment changes its target and nothing else.  The right-hand side is built from concatenations / slices of the
+    # holders (the target itself among them: self-append, nested, target on the right, target twice); afterwards EVERY holder is printed
+    cat = lambda x, y: bin_("cat", x, y)
+    for tn, t, va, vb, vc, one in (("T", TT, lit(T("ab")), lit(T("cd")), lit(T("ef")), lit(T("x"))),
+                                    ("LZ", TL(TZ), lit(L(TZ, [Z(1), Z(2)])), lit(L(TZ, [Z(3), Z(4)])), lit(L(TZ, [Z(5)])), zl(7))):
+        A, B, Cc = ident("a"), ident("b"), ident("c")
+        shapes = {"a+b": cat(A, B), "a+(b+c)": cat(A, cat(B, Cc)), "(a+b)+c": cat(cat(A, B), Cc), "a+(a+b)": cat(A, cat(A, B)), "(b+a)+a": cat(cat(B, A), A),
+                  "b+a": cat(B, A), "a+a": cat(A, A), "(a+a)+a": cat(cat(A, A), A), "a+(b+a)": cat(A, cat(B, A)), "a+(b+lit)": cat(A, cat(B, one)),
+                  "a+(lit+b)": cat(A, cat(one, B)) if tn == "T" else cat(A, cat(cat(B, one), Cc)), "(b+c)+a": cat(cat(B, Cc), A), "b+(c+a)": cat(B, cat(Cc, A)),
+                  "a+slice(b)": cat(A, ter("slice", B, zl(1), zl(1))), "a+(slice(b)+c)": cat(A, cat(ter("slice", B, zl(2), zl(2)), Cc)),
+                  "a+((b+c)+b)": cat(A, cat(cat(B, Cc), B)), "a+lit": cat(A, one)}
+        for sn, rhs in shapes.items():
+            su = [var("a", t, va, False), var("b", t, vb, False), var("c", t, vc, False), setv(lvid("a"), rhs)]
+            add("frame:var:%s:%s" % (tn, sn), su, *pair2(ident("a"), t, pair2(ident("b"), t, ident("c"), t)[0], {"pair": True}))
+            # the same statement twice (what the first one left behind is the input of the second)
+            add("frame:var-twice:%s:%s" % (tn, sn), su + [setv(lvid("a"), rhs)], *pair2(ident("a"), t, pair2(ident("b"), t, ident("c"), t)[0], {"pair": True}))
+    E = lambda i: bin_("idx", ident("l"), zl(i))
+    for sn, rhs in {"e1+(e2+lit)": cat(E(1), cat(E(2), lit(T(";")))), "e1+e2": cat(E(1), E(2)), "e1+(e1+e2)": cat(E(1), cat(E(1), E(2))), "(e2+e3)+e1": cat(cat(E(2), E(3)), E(1)),
+                    "e1+(slice(e2)+e3)": cat(E(1), cat(ter("slice", E(2), zl(1), zl(1)), E(3)))}.items():
+        su = [var("l", TL(TT), lit(L(TT, [T("Ada"), T("Bob"), T("Cy")])), False), setv(idx_lv(lvid("l"), zl(1)), rhs)]
+        add("frame:element:%s" % sn, su, ident("l"), TL(TT))
+        su2 = [var("l", TL(TT), lit(L(TT, [T("Ada"), T("Bob"), T("Cy")])), False), var("z", TT, lit(T("")), False), setv(lvid("z"), cat(ident("z"), rhs)), setv(lvid("z"), cat(ident("z"), rhs))]
+        add("frame:accumulate-elements:%s" % sn, su2, *pair2(ident("z"), TT, ident("l"), TL(TT)))
+    F = lambda n: {"k": "fld", "f": "wort", "e": ident(n)}
+    for sn, rhs in {"p+(q+lit)": cat(F("p"), cat(F("q"), lit(T("!")))), "p+q": cat(F("p"), F("q")), "(q+p)+p": cat(cat(F("q"), F("p")), F("p"))}.items():
+        su = [var("p", TS("Paar"), new("Paar", zahl=zl(1), wort=lit(T("eins"))), False), var("q", TS("Paar"), new("Paar", zahl=zl(2), wort=lit(T("zwei"))), False),
+              setv(fld_lv("wort", lvid("p")), rhs)]
+        add("frame:field:%s" % sn, su, *pair2(ident("p"), TS("Paar"), ident("q"), TS("Paar")))
     return [c for c in cases if c is not None]
 
 
@@ -702,7 +755,7 @@ _pv = print_value
 
 def print_value(e, t, tmp):      # noqa: F811  (extends the earlier definition with pairs)
     if isinstance(t, dict) and t.get("pair"):
-        return _pv(e["a"], e["ta"], tmp + "p") + [pr(lit(T(" / ")))] + _pv(e["b"], e["tb"], tmp + "q")
+        return print_value(e["a"], e["ta"], tmp + "p") + [pr(lit(T(" / ")))] + print_value(e["b"], e["tb"], tmp + "q")
     return _pv(e, t, tmp)
 
 
